@@ -222,6 +222,22 @@ fn specs(thorough: bool) -> Vec<Spec> {
             }
         }
     }
+    // locales with multi-byte characters around every byte offset up to 24: the timeout Disconnect is built for
+    // the locale the client reported, whatever it looks like
+    for pad in 0..=20usize {
+        for ch in ["\u{e9}", "\u{20ac}", "\u{1f600}", "\u{441}"] {
+            let loc = format!("{}{}", "a".repeat(pad), ch.repeat(8));
+            for e in ["never", "wrong-id", "prompt"] {
+                if e == "prompt" && pad % 5 != 0 {
+                    continue;
+                }
+                v.push(Spec { lat: [50_000, 0, 0], ci_after: 0, echo: e.into(), unsolicited_every: None, auth_ms: 0, locale: loc.clone(), ka_write_stall: None });
+            }
+        }
+    }
+    for loc in ["sr_cyrl_rs_\u{441}\u{440}\u{43f}", "de_\u{e9}\u{e9}\u{e9}\u{e9}\u{e9}\u{e9}\u{e9}\u{e9}\u{e9}\u{e9}", "zh_Hant_TW_x_ab\u{e9}\u{e9}"] {
+        v.push(Spec { lat: [0, 50_000, 0], ci_after: 10_000, echo: "never".into(), unsolicited_every: None, auth_ms: 0, locale: loc.into(), ka_write_stall: None });
+    }
     if !thorough {
         for e in ["prompt", "never", "delay-15000"] {
             v.push(Spec { lat: [33_000, 0, 0], ci_after: 10_000, echo: e.into(), unsolicited_every: Some(5_000), auth_ms: 0, locale: "en_us".into(), ka_write_stall: None });
